@@ -489,6 +489,9 @@ def c18(ctx):
         ctx.tlc("FsStoreGen", fs_cfg(sc, emit=False, view=True), workers=8, timeout=2400)
     args = ["fscancel", "-seed", str(ctx.seed), "-scratch", ctx.scratch] + ([] if quick else ["-thorough"])
     ctx.absorb(ctx.vh_run(args, timeout=3000), args, label="fsstore/cancel")
+    # another layout of the base directory: staging on another filesystem than the shards (rename impossible)
+    args = ["fslayout", "-scratch", ctx.scratch, "-rounds", "4" if quick else "16"]
+    ctx.absorb(ctx.vh_run(args, timeout=3000), args, label="fsstore/layout")
     # free-running stress under the Go race detector: only order-free facts are asserted
     args = ["fsstress", "-dur", "2s" if quick else "20s", "-seed", str(ctx.seed), "-scratch", ctx.scratch]
     rep = ctx.vh_run(args, race=True, race_target="fsstore[stress]")
@@ -503,8 +506,10 @@ def c18(ctx):
              "specification's state after every step; cancellation: the writer's context is cancelled immediately before "
              "each of its filesystem operations (put and streams of 1 and 3 writes; 0 B, 57 B, 300 KiB, 1 MiB; the operation "
              "count is discovered by a dry run), then a new handle checks absent-or-complete, acknowledged-is-visible and "
-             "usability; non-trivial = contains a crash, a fault, a cancellation or a second thread; distinct = distinct "
-             "schedules",
+             "usability; layout: '.temp' as a symbolic link to a directory on another filesystem (where one is available: "
+             "/dev/shm), 32 MiB puts and streams with a reader polling Get / GetStream from a second handle meanwhile -- "
+             "absent or complete, acknowledged is visible (the store may refuse every put there); non-trivial = contains a "
+             "crash, a fault, a cancellation, a second thread or the other layout; distinct = distinct schedules",
         assumptions=["process death is simulated in-process (threads never resume; files stay as they are); power loss / "
                      "page-cache loss is outside the property",
                      "hook points cover every filesystem call of fsstore.go (reviewed)"],
